@@ -1,8 +1,121 @@
-import LinfaSpec.Model.Fold
+import LinfaSpec.Proofs.Fold
 
+/-!
+# C01 — K-fold splitting partitions the samples and leaves the dataset intact
+
+Theorems about `LinfaSpec.Fold` (the model of `fold`, `iter_fold`, `cross_validate`),
+for every dataset (a list over an arbitrary row type), every `2 ≤ k ≤ n`.
+The Rust code folds `records` and `targets` with the same chunk size and the same
+swaps; the model applies the same polymorphic function to both containers, so a
+statement for an arbitrary row type covers records, targets and their pairing.
+-/
 namespace LinfaSpec.Props.C01
 open LinfaSpec.Fold
 
-theorem placeholder : (chunks 2 [1,2,3] : List (List Nat)) = [[1,2],[3]] := by decide
+/-- number of chunks is at least `k` and at least two under the property's guard -/
+theorem chunks_enough {α} (k : Nat) (ds : List α) (hk : 2 ≤ k) (hn : k ≤ ds.length) :
+    k ≤ (chunks (ds.length / k) ds).length ∧ 0 < ds.length / k := by
+  have hfs : 0 < ds.length / k := Nat.div_pos hn (by omega)
+  refine ⟨?_, hfs⟩
+  rw [chunks_length]
+  -- k * fs ≤ n, so ceil(n / fs) ≥ k
+  have h1 : k * (ds.length / k) ≤ ds.length := Nat.mul_div_le _ _
+  rw [Nat.le_div_iff_mul_le hfs]
+  omega
+
+/-- **fold never fails on the inputs the property covers** (`2 ≤ k ≤ n`), it
+yields exactly `k` pairs, and pair `i` is
+(all rows outside block `i`, in their original order ; block `i`)
+where block `i` is rows `[i*fs, (i+1)*fs)`, `fs = n / k`. -/
+theorem fold_spec {α} (k : Nat) (ds : List α) (hk : 2 ≤ k) (hn : k ≤ ds.length) :
+    foldPairs k ds = some ((List.range k).map fun i =>
+      (ds.take (i * (ds.length / k)) ++ ds.drop ((i + 1) * (ds.length / k)),
+       (ds.drop (i * (ds.length / k))).take (ds.length / k))) := by
+  obtain ⟨hlen, hfs⟩ := chunks_enough k ds hk hn
+  have hne : ¬ (ds.length / k = 0) := by omega
+  unfold foldPairs
+  simp only [show ¬ k = 0 by omega, hne, if_false]
+  have hguard : ¬ ((chunks (ds.length / k) ds).length < 2 ∨ (chunks (ds.length / k) ds).length < k) := by
+    omega
+  simp only [hguard, if_false]
+  congr 1
+  have := foldGo_spec k (chunks (ds.length / k) ds) hlen k 0 (by omega)
+  rw [rot_zero] at this
+  rw [this]
+  apply List.map_congr_left
+  intro i hi
+  have hi' : i < k := List.mem_range.mp hi
+  simp only [Nat.zero_add]
+  rw [List.flatten_append, flatten_take_chunks _ hfs, flatten_drop_chunks _ hfs]
+  rw [chunks_length] at hlen
+  rw [chunks_getElem? _ _ _ (by omega)]
+  rfl
+
+example : foldPairs 3 [0, 1, 2, 3, 4, 5, 6] =
+    some [([2, 3, 4, 5, 6], [0, 1]), ([0, 1, 4, 5, 6], [2, 3]), ([0, 1, 2, 3, 6], [4, 5])] := by
+  decide
+
+/-- every pair is a split of the original multiset: `training ++ validation` is a
+permutation of the dataset (so the two parts are disjoint as multisets and their
+union is everything) -/
+theorem fold_partition {α} (k : Nat) (ds : List α) (hk : 2 ≤ k) (hn : k ≤ ds.length)
+    (ps : List (List α × List α)) (h : foldPairs k ds = some ps) :
+    ps.length = k ∧ ∀ p ∈ ps, (p.1 ++ p.2).Perm ds := by
+  rw [fold_spec k ds hk hn] at h
+  cases h
+  refine ⟨by simp, ?_⟩
+  intro p hp
+  simp only [List.mem_map, List.mem_range] at hp
+  obtain ⟨i, _, rfl⟩ := hp
+  generalize ds.length / k = fs
+  -- take a ++ drop b ++ take fs (drop a)  ~  take a ++ (take fs (drop a) ++ drop (a+fs))
+  have e : ds.drop ((i + 1) * fs) = (ds.drop (i * fs)).drop fs := by
+    rw [List.drop_drop]; congr 1; rw [Nat.succ_mul]
+  simp only [e]
+  have h2 : ds = ds.take (i * fs) ++ ((ds.drop (i * fs)).take fs ++ (ds.drop (i * fs)).drop fs) := by
+    rw [List.take_append_drop, List.take_append_drop]
+  conv => rhs; rw [h2]
+  rw [List.append_assoc]
+  exact List.Perm.append_left _ List.perm_append_comm
+
+/-- the validation parts are the consecutive blocks: concatenated in fold order they
+are exactly the first `k * (n / k)` rows, each once; the tail is training-only -/
+theorem fold_validation_blocks {α} (k : Nat) (ds : List α) (hk : 2 ≤ k) (hn : k ≤ ds.length)
+    (ps : List (List α × List α)) (h : foldPairs k ds = some ps) :
+    (ps.map (·.2)).flatten = ds.take (k * (ds.length / k)) := by
+  obtain ⟨hlen, hfs⟩ := chunks_enough k ds hk hn
+  rw [fold_spec k ds hk hn] at h
+  cases h
+  rw [← flatten_take_chunks _ hfs]
+  congr 1
+  apply List.ext_getElem?
+  intro i
+  rw [chunks_length] at hlen
+  by_cases hi : i < k
+  · have hc := chunks_getElem? (ds.length / k) ds i (by omega)
+    simp [hi, hc]
+  · simp [List.getElem?_take, hi]
+
+/-- **rows stay paired**: pair `i` of the fold of the zipped (record, target) rows
+is the zip of pair `i` of the records with pair `i` of the targets as the Rust code
+computes them from its two parallel chunk vectors (same chunk size, same swaps) —
+no record is ever attached to another row's target. -/
+theorem fold_rows_stay_paired {α β} (k : Nat) (rs : List α) (ts : List β)
+    (hlen : rs.length = ts.length) (hk : 2 ≤ k) (hn : k ≤ rs.length) :
+    ∃ fr ft, foldPairs k rs = some fr ∧ foldPairs k ts = some ft ∧ fr.length = k ∧ ft.length = k ∧
+      foldPairs k (rs.zip ts) =
+        some ((List.range k).map fun i =>
+          (((fr[i]?).getD ([], [])).1.zip ((ft[i]?).getD ([], [])).1,
+           ((fr[i]?).getD ([], [])).2.zip ((ft[i]?).getD ([], [])).2)) := by
+  have hz : (rs.zip ts).length = rs.length := by simp [hlen]
+  refine ⟨_, _, fold_spec k rs hk hn, fold_spec k ts hk (hlen ▸ hn), by simp, by simp, ?_⟩
+  rw [fold_spec k (rs.zip ts) hk (hz ▸ hn)]
+  congr 1
+  apply List.map_congr_left
+  intro i hi
+  have hi' : i < k := List.mem_range.mp hi
+  simp only [hz, ← hlen, List.getElem?_map, List.getElem?_range hi', Option.map_some, Option.getD_some]
+  simp only [List.zip, List.take_zipWith, List.drop_zipWith]
+  rw [List.zipWith_append (by simp [hlen])]
 
 end LinfaSpec.Props.C01
